@@ -68,7 +68,7 @@ def cases(tier, seed):
                 ly = rng.choice(simple) if simple and k % 2 else "ly"
                 layers = {"color1": {
                     g_: {"cs": [], "comps": [{"b": "lx", "m": [MS, 0, 0, MS], "d": [10 * PS, 0]}], "anchors": [],
-                         "w": glyphs[g_]["w"] + (rng.choice([-80, 37, 120]) * PS if k % 4 < 3 else 0), "h": 0, "u": []},
+                         "w": abs(glyphs[g_]["w"] + (rng.choice([-80, 37, 120]) * PS if k % 4 < 3 else 0)), "h": 0, "u": []},   # (an advance is never negative)
                     "lx": {"cs": [], "comps": [{"b": ly, "m": [-MS, 0, 0, MS], "d": [200 * PS, 0]}], "anchors": [], "w": 0, "h": 0, "u": []},
                     ly: {"cs": [[[0, 0, "line"], [100 * PS, 0, "line"], [50 * PS, 80 * PS, "line"]]], "comps": [], "anchors": [],
                          "w": (glyphs[ly]["w"] + 62 * PS) if ly in glyphs else 0, "h": 0, "u": []}}}
